@@ -25,6 +25,9 @@ SEMANTICS = [
     "python int is unbounded; numpy int32/int64 arrays carry their width (overflow obligations); storing a real into an integer array truncates toward zero",
     "numpy arrays are (shape, index -> element) with a dtype tag; element-wise ops, scalar/trailing broadcasting, basic slices, boolean masks, stores and copies are modelled; aliases are tracked by identity",
     "pandas: a table is named columns of positional arrays and a pressure argument an array; label alignment of Series / DataFrame rows (non-default, permuted or offset indices) is NOT modelled - the bounded family 'container independence' (C09, C11, C12, C15, C16) evaluates it on the real code",
+    "`while` loops whose body only rebinds local scalars are summarised by their LAST iteration from a havocked state: partial correctness only (no invariant inferred, termination not proved; well-definedness of the body is recorded against the havocked state)",
+    "what the contract cannot know is explored both ways, one boolean per fact: isinstance(argument, int / float / numpy.generic) for a raw scalar argument (python number or numpy scalar), hasattr(caller-supplied callable, name), MinimizerResult.aborted / success",
+    "a reservoir / from_table obligation is a statement about every returning path of the method (the runner repeats it per path while it stays proved)",
     "only explicit raise statements and the documented raises of modelled library calls are control flow",
     "evaluation order, short-circuiting and `is None` follow CPython; no concurrency, no recursion, no metaclasses",
     "extraction drops docstrings, annotations, comments, warnings.warn calls and the text of exception messages (class and path condition are kept)",
